@@ -163,6 +163,21 @@ Definition final_ok (c0 : core) (progs : list (list cop)) (final : cobs) : bool 
   && forallb (fun p => is_subseq (flat_map cop_fields p) (skipn (length init_fs) fs)) progs
   && existsb (fun l => probe_eqb pr (sprobe (fs, l))) (final_levels c0 progs).
 
+(* the same with a sequential TAIL: operations issued (by one more goroutine) after all the
+   others have returned.  Their fields come last, in their order; if the tail sets a level, the
+   logger ends at the tail's last SetLevel - whatever the parallel part did *)
+Definition final_ok_tail (c0 : core) (progs : list (list cop)) (tail : list cop) (final : cobs) : bool :=
+  let pr := expand final in
+  let fs := hd [] (last pr []) in
+  let init_fs := cfields c0 in
+  let tf := flat_map cop_fields tail in
+  let mid := firstn (length fs - length init_fs - length tf) (skipn (length init_fs) fs) in
+  fields_eqb fs (init_fs ++ mid ++ tf)
+  && perm_eqb mid (flat_map cop_fields (concat progs))
+  && forallb (fun p => is_subseq (flat_map cop_fields p) mid) progs
+  && existsb (fun l => probe_eqb pr (sprobe (fs, l)))
+       (match last_level tail None with Some l => [l] | None => final_levels c0 progs end).
+
 (* ---- children created by ChildLogger calls running concurrently with the updates ---- *)
 Definition sub_multiset (a b : list N) : bool := forallb (fun x => count x a <=? count x b) a.
 
@@ -202,28 +217,31 @@ Definition child_eqb (a : (nat * nat) * cobs) (b : (nat * nat) * core) : bool :=
 
 (* cc_children: (goroutine, position in its program) and the probe of every child, in the order
    of creation; probed once, after the schedule *)
-Record cc_case := { cc_init : core; cc_progs : list (list cop); cc_sched : list nat;
+(* cc_tail: operations issued after all goroutines of cc_progs have returned - goroutine number
+   [length cc_progs] of the model, scheduled only then *)
+Record cc_case := { cc_init : core; cc_progs : list (list cop); cc_tail : list cop; cc_sched : list nat;
                     cc_obs : list cobs; cc_done : bool; cc_children : list ((nat * nat) * cobs) }.
 
 Definition cc_judge (c : cc_case) : nat :=
-  let st0 := cinit (cc_init c) (cc_progs c) in
+  let allp := cc_progs c ++ [cc_tail c] in
+  let st0 := cinit (cc_init c) allp in
   let model_obs := map probe (crun_obs st0 (cc_sched c)) in
   let model_done := all_returned cop core (fst (crun st0 (cc_sched c))) in
-  verdict ((negb (cc_done c) || final_ok (cc_init c) (cc_progs c) (last (cc_obs c) (Irr [])))
-           && children_ok (cc_init c) (cc_progs c) (cc_children c))
+  verdict ((negb (cc_done c)
+            || final_ok_tail (cc_init c) (cc_progs c) (cc_tail c) (last (cc_obs c) (Irr [])))
+           && children_ok (cc_init c) allp (cc_children c))
           (list_eqb probe_eqb (map expand (cc_obs c)) model_obs && Bool.eqb (cc_done c) model_done
            && list_eqb2 child_eqb (cc_children c) (crun_children st0 (cc_sched c))).
 
 (* some CAS failed / some goroutine was pre-empted between its Load and its update *)
 Definition cc_nontrivial (c : cc_case) : bool :=
-  let st0 := cinit (cc_init c) (cc_progs c) in
   negb (Nat.eqb (length (cc_sched c)) (length (flat_map cprog (concat (cc_progs c)))))
   || negb (list_eqb (fun a b => Nat.eqb a b) (cc_sched c)
              (flat_map (fun t => repeat t (length (flat_map cprog (nth t (cc_progs c) []))))
                        (seq 0 (length (cc_progs c))))).
 
-Record sc_case := { sc_init : core; sc_progs : list (list cop); sc_final : cobs;
+Record sc_case := { sc_init : core; sc_progs : list (list cop); sc_tail : list cop; sc_final : cobs;
                     sc_children : list ((nat * nat) * cobs) }.
 Definition sc_judge (c : sc_case) : nat :=
-  verdict (final_ok (sc_init c) (sc_progs c) (sc_final c)
-           && children_ok (sc_init c) (sc_progs c) (sc_children c)) true.
+  verdict (final_ok_tail (sc_init c) (sc_progs c) (sc_tail c) (sc_final c)
+           && children_ok (sc_init c) (sc_progs c ++ [sc_tail c]) (sc_children c)) true.
